@@ -1,33 +1,53 @@
 (* C13 - what the generated case files evaluate: model-vs-implementation differences (one-step
    simulation from the implementation's own pre-state) and the property's monitors on the
    implementation's own answers. *)
-From Coq Require Import Qabs.
+From Coq Require Import Qabs Uint63.
 From ZenoV Require Import Lib.Harness Rate.Bucket Rate.BucketProofs Rate.Manager.
 Open Scope string_scope.
 Open Scope list_scope.
 Open Scope Z_scope.
 
 (* a finite binary64 value as the driver passes it: m * 2^e exactly (math.Frexp) *)
-Definition fl := (Z * Z)%type.
+(* The case files are large: monomorphic constructors instead of pairs and list literals.
+   Numbers arrive as primitive 63-bit integers (parsed natively, ~15x faster than Z literals):
+   magnitudes with the sign in the constructor. *)
+Definition iz (i : int) : Z := Uint63.to_Z i.
+Inductive zi := ZP (n : int) | ZM (n : int) | ZT0.      (* n, -n, time.Time{} *)
+Definition zi_Z (z : zi) : Z :=
+  match z with ZP n => iz n | ZM n => - iz n | ZT0 => time_zero end.
+(* +-m * 2^(e - 1100) *)
+Inductive fl := F (m e : int) | FN (m e : int).
 Definition q_of (f : fl) : Q :=
-  let '(m, e) := f in
+  let '(m, e) := match f with F m e => (iz m, iz e - 1100) | FN m e => (- iz m, iz e - 1100) end in
   if 0 <=? e then inject_Z (m * 2 ^ e) else Qmake m (Z.to_pos (2 ^ (- e))).
 
 (* -------------------------------------------------------------------------------------
    Bucket stream (white box, virtual clock) *)
-Record bstate := BS { s_tok : fl; s_rate : fl; s_last : Z; s_pen : Z; s_fails : Z }.
+Record bstate := BS0 { s_tok : fl; s_rate : fl; s_last : Z; s_pen : Z; s_fails : Z }.
+Definition BS (tok rate : fl) (last : int) (pen fails : zi) : bstate :=
+  BS0 tok rate (iz last) (zi_Z pen) (zi_Z fails).
 
 Inductive hop :=
 | HTry (now : Z) (granted : bool)      (* one poll of the real Wait() *)
 | HFail (now : Z) (status : Z)         (* adjustOnFailure *)
 | HSucc (now : Z)                      (* onSuccess *)
 | HRefill (now : Z).                   (* refill() alone *)
+Definition HT (now : int) (g : bool) := HTry (iz now) g.
+Definition HF (now : int) (s : zi) := HFail (iz now) (zi_Z s).
+Definition HS (now : int) := HSucc (iz now).
+Definition HR (now : int) := HRefill (iz now).
 
-Record bcase := BC {
+(* operation, implementation state after it, rest *)
+Inductive steps := SN | SC (h : hop) (post : bstate) (r : steps).
+Fixpoint steps_list (s : steps) : list (hop * bstate) :=
+  match s with SN => [] | SC h p r => (h, p) :: steps_list r end.
+
+Record bcase := BC0 {
   c_cap : fl; c_ideal : fl;
   c_init : bstate;
-  c_steps : list (hop * bstate)        (* operation, implementation state after it *)
+  c_steps : list (hop * bstate)
 }.
+Definition BC (c i : fl) (s0 : bstate) (st : steps) : bcase := BC0 c i s0 (steps_list st).
 
 Definition to_bucket (c : bcase) (s : bstate) : bucket :=
   mkB (q_of (s_tok s)) (q_of (c_cap c)) (q_of (s_rate s)) (q_of (c_ideal c)) (s_last s) (s_pen s) (s_fails s).
@@ -186,7 +206,20 @@ Inductive mev :=
 | ESucc (host : string) (t0 t1 : Z) (after : snap)               (* OnSuccess *)
 | EBurst (host : string) (ivs : list (Z * Z)) (after : snap).    (* concurrent Waits on a present host *)
 
-Record mcase := MC { k_max : Z; k_cap : fl; k_rate : fl; k_evs : list mev }.
+Record mcase := MC0 { k_max : Z; k_cap : fl; k_rate : fl; k_evs : list mev }.
+
+(* wire constructors (primitive integers, monomorphic lists) *)
+Inductive wsnap := KN | KC (h : string) (u : int) (r : wsnap).
+Fixpoint snap_of (w : wsnap) : snap :=
+  match w with KN => [] | KC h u r => (h, iz u) :: snap_of r end.
+Inductive wivs := VN | VC (t0 t1 : int) (r : wivs).
+Fixpoint ivs_of (w : wivs) : list (Z * Z) :=
+  match w with VN => [] | VC a b r => (iz a, iz b) :: ivs_of r end.
+Definition EW (h : string) (t0 t1 : int) (a : wsnap) := EWait h (iz t0) (iz t1) (snap_of a).
+Definition EF (h : string) (s : zi) (t0 t1 : int) (a : wsnap) := EFail h (zi_Z s) (iz t0) (iz t1) (snap_of a).
+Definition ES (h : string) (t0 t1 : int) (a : wsnap) := ESucc h (iz t0) (iz t1) (snap_of a).
+Definition EB (h : string) (v : wivs) (a : wsnap) := EBurst h (ivs_of v) (snap_of a).
+Definition MC (mx : zi) (c r : fl) (evs : list mev) : mcase := MC0 (zi_Z mx) c r evs.
 
 Definition ev_after (e : mev) : snap :=
   match e with EWait _ _ _ a => a | EFail _ _ _ _ a => a | ESucc _ _ _ a => a | EBurst _ _ a => a end.
